@@ -17,6 +17,7 @@ EXPLANATION = (
     "inlined, holes replaced by typed placeholders, parsed by syn): trait path, receiver side, `type Error`, Result return, method "
     "name/signature. R7: TypePath.path is never interpolated without TypePath.generics. "
     " R8: TypePath::from(syn::Path) is partially evaluated over the shape of the last segment (whole path kept, <..> of the LAST segment cleared once and returned as generics). R9 imports C15.R1: validation partitions instructions per (kind, fallible), so an instruction is never rejected because of an instruction of another conversion.")
+EXPLANATION += ' R11 the counterpart type and the error type of a trait instruction are read with the full path grammar (parse::<syn::Path>), never an identifier-only / mod-style parser (else `X<..>` instructions yield no impls).'
 NOT_DECIDED = ["rustc coherence / trait resolution on the emitted impls (trusted)", "what the user-written counterpart/error type tokens denote"]
 
 TRAITS = {
